@@ -9,6 +9,7 @@ ETCD = dict(Keys={1, 2}, CompactKey=9, RevSpace={0, 2, 4}, MaxCmp=1, MaxSucc=2, 
 T_MON = {
     "C16": ["M_UnsupportedRejected", "M_CompactIsNoop", "M_K8sShapeServed", "M_RecognisedIsEtcd", "M_FailureBranchKv", "M_FutureRevisionHasNoEffect"],
 }
+T_MON_CONC = ["M_FailedReturnsCurrent", "M_WriteCondition", "M_FailedOnlyIfDiffered", "M_SuccessMeansWritten", "M_DeleteReturnsPrev", "M_HeaderCoversData", "M_NoPanic"]
 T_MON_HIST = ["M_ReadIsSnapshot", "M_MoreFlag", "M_CountIsSnapshot", "M_EtcdPointCount", "M_HeaderCoversData", "M_WriteCondition", "M_FailedOnlyIfDiffered",
               "M_SuccessMeansWritten", "M_DeleteReturnsPrev", "M_DeliveredMatchesWrite", "M_NoSkip", "M_DeliveredOrdered", "M_CompleteAtQuiescence"]
 T_MODULE = {"C16": "TraceEtcd.tla"}
@@ -117,10 +118,28 @@ def check_etcd(prop, tier, seed):
                     violations += rc
                     if rc == 0:
                         cov["known_findings"].append("D18")
+        # 4. the same shapes issued CONCURRENTLY through the etcd Txn handler: schedules of the concurrent model (two writers,
+        #    every initial key state) replayed gate by gate; the failure branch must carry a current key-value
+        if not violations:
+            import fam_write
+            cc = dict(fam_write.BASE_CONSTS, InitStates={"none", "live", "deleted", "recreated"}, ExpSet={0, 1, 3, 4})
+            behs, _ = fam_write.gen_behaviours(work, cc, "simulate", seed + 5, num=1500 if quick else 20000, depth=80, limit=1500 if quick else 20000, name="gencc16")
+            reports, trs = replay(work, binp, behs, "memkv", 16, ["-api", "etcd"], name="replay_etcdapi")
+            rp = merge_reports(reports)
+            cov["evaluations"] += rp.get("behaviours", 0); cov["distinct_nontrivial"] += rp.get("nontrivial", 0)
+            cov["replay"].append(dict(what="two concurrent clients through the etcd Txn handler, schedules of KubeBrain.tla replayed gate by gate",
+                                      behaviours=rp.get("behaviours", 0), agreed=rp.get("agreed", 0), diverged=rp.get("diverged", 0), observable_mismatch=rp.get("obs_mismatch", 0),
+                                      notes=(rp.get("mismatch_notes") or [])[:2]))
+            log("replay through the etcd Txn handler: %d behaviours, agreed %d, diverged %d, observable mismatch %d" % (
+                rp.get("behaviours", 0), rp.get("agreed", 0), rp.get("diverged", 0), rp.get("obs_mismatch", 0)))
+            ntr, v = validate_all(work, trs, T_MON_CONC, chunks=8)
+            cov["traces_validated_against_impl"] += ntr
+            if v:
+                violations += known_or_violation(prop, seed, v)
         cov["rule"] = ("(a) (transaction, store) pairs of the bounded space of Etcd.tla, sampled evenly over transaction structures, sent to the real Txn "
                        "handler over a seeded store; (b) TLC-generated histories of the Kubernetes transaction shapes issued through the real etcd Txn / Range / "
                        "Watch handlers on four engines with read sweeps; every case is distinct")
-        cov["monitors"] = T_MON[prop] + T_MON_HIST
+        cov["monitors"] = T_MON[prop] + T_MON_HIST + T_MON_CONC
         write_evidence(prop, tier, seed, cov, ["create_revision / version / lease fields of etcd key-values are outside the property and not compared"],
                        time.time() - t0, violations)
         return 1 if violations else 0
